@@ -1356,6 +1356,131 @@ pub fn spaces(tier: Tier) -> Vec<Space> {
         }));
     }
 
+    // 9b. histories on ONE private-key object: every sequence of up to 4 operations over {to_public_key, PublicKey::from_private_key,
+    // get_point, to_wif, compress_public_key(true), compress_public_key(false)}; after every observing operation the result
+    // must be the reference value for the compression form the object has at that moment
+    {
+        let t2 = t.clone();
+        let nk = (t.n_core_keys as u64).min(4);
+        let maxk = 4u32;
+        let mut offsets = vec![0u64];
+        for k in 0..=maxk {
+            offsets.push(offsets[k as usize] + 6u64.pow(k));
+        }
+        let total = *offsets.last().unwrap();
+        v.push(Space::new("key-object-histories", nk * 2 * total, move |case, acc| {
+            let c = coords(case.idx, &[nk, 2, total]);
+            let k = &t2.keys[c[0] as usize];
+            let mut form = c[1] == 1; // true = compressed
+            let n = offsets.iter().rposition(|o| *o <= c[2]).unwrap();
+            let mut rem = c[2] - offsets[n];
+            let mut ops = vec![0u8; n];
+            for i in (0..n).rev() {
+                ops[i] = (rem % 6) as u8;
+                rem /= 6;
+            }
+            let names = ["to_public_key", "PublicKey::from_private_key", "get_point", "to_wif", "compress_public_key(true)", "compress_public_key(false)"];
+            let hist: Vec<&str> = ops.iter().map(|o| names[*o as usize]).collect();
+            let input = json!({"key": k.label, "initial_form": if form { "compressed" } else { "uncompressed" }, "operations": hist});
+            acc.evaluations += 1;
+            acc.nontrivial_structural += 1;
+            let Tri::Ok(mut sk) = call(acc, || PrivateKey::from_bytes(&k.key32).map(|s| s.compress_public_key(form))) else { return };
+            for (i, op) in ops.iter().enumerate() {
+                let want_enc = &k.enc[form as usize];
+                let res: Tri<Option<(Vec<u8>, Vec<u8>)>> = match op {
+                    0 => call(acc, || sk.to_public_key().and_then(|p| p.to_bytes()).map(|b| Some((b, want_enc.clone())))),
+                    1 => call(acc, || PublicKey::from_private_key(&sk).to_bytes().map(|b| Some((b, want_enc.clone())))),
+                    2 => call_plain(acc, || Some((sk.get_point(), want_enc.clone()))),
+                    3 => call(acc, || sk.to_wif().map(|w| Some((w.into_bytes(), k.wif[form as usize].clone().into_bytes())))),
+                    4 | 5 => {
+                        form = *op == 4;
+                        let f = form;
+                        match call_plain(acc, || sk.compress_public_key(f)) {
+                            Tri::Ok(n2) => {
+                                sk = n2;
+                                Tri::Ok(None)
+                            }
+                            Tri::Err(e) => Tri::Err(e),
+                            Tri::Panic(p) => Tri::Panic(p),
+                        }
+                    }
+                    _ => unreachable!(),
+                };
+                acc.traces += 1;
+                match res {
+                    Tri::Ok(None) => {}
+                    Tri::Ok(Some((got, want))) => {
+                        if got != want {
+                            acc.violate(format!("C07/{}/kind=wrong-result/after-history", names[*op as usize]), case.idx, case.json(input.clone()), format!("step {}: {} but the object is in {} form, expected {}", i, hx(&got), if form { "compressed" } else { "uncompressed" }, hx(&want)));
+                            return;
+                        }
+                    }
+                    Tri::Err(e) => {
+                        acc.violate(format!("C07/{}/kind=spurious-error/after-history", names[*op as usize]), case.idx, case.json(input.clone()), e);
+                        return;
+                    }
+                    Tri::Panic(p) => {
+                        acc.violate(format!("C07/{}/kind=panic@{}", names[*op as usize], panic_site(&p)), case.idx, case.json(input.clone()), p);
+                        return;
+                    }
+                }
+            }
+            acc.outcome(&[b'k', n as u8, form as u8]);
+        }));
+    }
+    // 9c. serde encodings of keys and addresses: JSON text, JSON value and CBOR round trips return the same object
+    {
+        let t2 = t.clone();
+        let nk = (t.n_core_keys as u64).min(6);
+        v.push(Space::new("serde-roundtrips", nk * 2 * 3, move |case, acc| {
+            let c = coords(case.idx, &[nk, 2, 3]);
+            let k = &t2.keys[c[0] as usize];
+            let form = c[1] == 1;
+            let oname = ["PublicKey (other form)", "PublicKey", "P2PKHAddress"][c[2] as usize];
+            let input = json!({"key": k.label, "compressed": form, "object": oname});
+            acc.evaluations += 1;
+            acc.nontrivial_structural += 1;
+            acc.transitions += 6;
+            fn three<T: serde::Serialize + serde::de::DeserializeOwned>(x: &T) -> Result<(T, T, T, T), String> {
+                let text = serde_json::to_string(x).map_err(|e| e.to_string())?;
+                let a: T = serde_json::from_str(&text).map_err(|e| format!("from_str({}): {}", text, e))?;
+                let val = serde_json::to_value(x).map_err(|e| e.to_string())?;
+                let b: T = serde_json::from_value(val).map_err(|e| format!("from_value: {}", e))?;
+                let rd: T = serde_json::from_reader(text.as_bytes()).map_err(|e| format!("from_reader: {}", e))?;
+                let mut buf = vec![];
+                ciborium::ser::into_writer(x, &mut buf).map_err(|e| e.to_string())?;
+                let d: T = ciborium::de::from_reader(&buf[..]).map_err(|e| format!("cbor: {}", e))?;
+                Ok((a, b, rd, d))
+            }
+            let res = guard(|| -> Result<bool, String> {
+                let sk = PrivateKey::from_bytes(&k.key32).map_err(|e| e.to_string())?.compress_public_key(form);
+                let pk = sk.to_public_key().map_err(|e| e.to_string())?;
+                match c[2] {
+                    0 => {
+                        let other = if form { pk.to_decompressed() } else { pk.to_compressed() }.map_err(|e| e.to_string())?;
+                        let (a, b, r, d) = three(&other)?;
+                        Ok([a, b, r, d].iter().all(|x| x.to_bytes().ok() == Some(k.enc[!form as usize].clone())))
+                    }
+                    1 => {
+                        let (a, b, r, d) = three(&pk)?;
+                        Ok([a, b, r, d].iter().all(|x| x.to_bytes().ok() == Some(k.enc[form as usize].clone())))
+                    }
+                    _ => {
+                        let ad = P2PKHAddress::from_pubkey(&pk).map_err(|e| e.to_string())?;
+                        let want = ad.to_string().map_err(|e| e.to_string())?;
+                        let (a, b, r, d) = three(&ad)?;
+                        Ok([a, b, r, d].iter().all(|x| x.to_string().ok().as_deref() == Some(want.as_str())))
+                    }
+                }
+            });
+            match res {
+                Ok(Ok(true)) => acc.outcome(b"serde-ok"),
+                Ok(Ok(false)) => acc.violate("C07/serde/kind=roundtrip-differs", case.idx, case.json(input), "an object decoded from its own serde encoding differs"),
+                Ok(Err(e)) => acc.violate("C07/serde/kind=own-encoding-rejected", case.idx, case.json(input), e),
+                Err(p) => acc.violate(format!("C07/serde/kind=panic@{}", panic_site(&p)), case.idx, case.json(input), p),
+            }
+        }));
+    }
     // 10. scalars outside [1, n-1]: not quantified by the statement; behaviour recorded as information only
     {
         v.push(Space::new("scalar-range(info)", 4 * 3, move |case, acc| {
